@@ -226,7 +226,15 @@ class Run:
         return rec
 
     def _bootstrap(self, rec, fn):
-        self.by_ident[_rt.get_ident()] = rec
+        ident = _rt.get_ident()
+        self.by_ident[ident] = rec
+        try:
+            self._bootstrap0(rec, fn)
+        finally:
+            if self.by_ident.get(ident) is rec:     # the OS may hand this ident to an unrelated thread later
+                del self.by_ident[ident]
+
+    def _bootstrap0(self, rec, fn):
         rec.sem.acquire()                      # parked until first scheduled
         aborted = self.aborting
         if not aborted:
